@@ -44,10 +44,10 @@ type BFSConfig struct {
 
 type BFSResult struct {
 	States, Transitions, Nontrivial int64
-	Depth                            int
-	Exhaustive                       bool
-	Caps                             []string
-	FirstPaths                       [][]string
+	Depth                           int
+	Exhaustive                      bool
+	Caps                            []string
+	FirstPaths                      [][]string
 }
 
 func names(cfg *BFSConfig, path []int) []string {
@@ -279,7 +279,6 @@ func SeqsShard(n, d int, sh vk.Shard, deadline time.Time, f func(seq []int)) (co
 	}
 	return !stop
 }
-
 
 // replayOps returns the operation list of the replay file named by VERIF_REPLAY, if any.
 func replayOps() ([]string, bool) {
